@@ -163,10 +163,25 @@ def _offset_advance(bus, a, b):
     return bus.physical(b) - bus.physical(a)
 
 
+def _has_move(stmts) -> bool:
+    found = []
+    twins.walk(stmts, lambda s2, _: found.append(1) if s2["k"] in ("org", "reloc", "call") else None)
+    return bool(found)
+
+
 def _plain_labels(ir):
     """labels (outside macro bodies / loops) that are certainly not under an @= : name -> True"""
     ok = {}
     state = {"reloc": None}  # None unknown, False no relocation, True relocated
+    moves_in_bodies = []
+
+    def scan(st, in_macro):
+        if in_macro and st["k"] in ("org", "reloc"):
+            moves_in_bodies.append(1)
+        if st["k"] == "call" and any(isinstance(a, dict) and _has_move(a.get("code", [])) for a in st.get("args", [])):
+            moves_in_bodies.append(1)
+
+    twins.walk(ir, scan)
 
     def go(stmts, certain):
         for st in stmts:
@@ -188,10 +203,12 @@ def _plain_labels(ir):
                 if st.get("e") is not None:
                     go(st["e"], False)
                 state["reloc"] = before if not has_move else None
-            elif k in ("for", "macro"):
+            elif k == "macro":
                 pass
-            elif k == "call":
-                pass
+            elif k in ("for", "call"):
+                # the expanded body (any macro, any block argument) may move the position
+                if moves_in_bodies or k == "for" and _has_move(st["b"]):
+                    state["reloc"] = None
         return None
 
     go(ir, True)
